@@ -12,6 +12,7 @@ import (
 	"strings"
 
 	"verif/internal/chanmodel"
+	"verif/internal/syncmodel"
 )
 
 type Finding struct {
@@ -95,5 +96,19 @@ func chanTrigger(trigger string, sc *chanmodel.Scenario, class, message string) 
 		// that execution continued after it
 		return feat["goexit_deep"] && strings.Contains(message, "returned after runtime.Goexit")
 	}
+	return false
+}
+
+// MatchSync attributes a syncscript failure to a listed finding, or returns "".
+func (f *File) MatchSync(property string, sc *syncmodel.Scenario, class, message string) string {
+	for _, k := range f.active(property) {
+		if syncTrigger(k.Trigger, sc, class, message) {
+			return k.ID
+		}
+	}
+	return ""
+}
+
+func syncTrigger(trigger string, sc *syncmodel.Scenario, class, message string) bool {
 	return false
 }
